@@ -1,8 +1,113 @@
 package main
 
+import (
+	"bytes"
+	"context"
+	"encoding/json"
+	"fmt"
+	"os"
+	"os/exec"
+	"path/filepath"
+	"strings"
+	"time"
+)
+
+// replayFile is what a VIOLATION line points at when a concretiser exists.
+type replayFile struct {
+	Property   string            `json:"property"`
+	Obligation string            `json:"obligation"`
+	Label      string            `json:"label"`
+	Clause     string            `json:"clause"`
+	Function   string            `json:"function"`
+	PkgDir     string            `json:"pkg_dir"`  // relative to the repository root
+	Template   string            `json:"template"` // test source injected with go test -overlay
+	Values     map[string]string `json:"values"`   // witness values from the solver model
+	Solver     string            `json:"solver"`
+	Output     string            `json:"output,omitempty"`
+	Reproduced bool              `json:"reproduced"`
+}
+
+func templateFor(fn string) string {
+	return filepath.Join(verifDir(), "replay", fileSafe(fn)+"_replay_test.go")
+}
+
 // tryReplay concretises the solver model of a failed obligation into a real in-package test
-// (go test -overlay) where a concretiser exists for the obligation family. Returns the replay
-// file and whether the failure was reproduced on the real code.
+// (go test -overlay) where a concretiser exists for the function. Returns the replay file and
+// whether the failure was reproduced on the real code.
 func tryReplay(dir, prop string, o *Obligation) (string, bool) {
-	return "", false
+	tmpl := templateFor(o.Fn)
+	if _, err := os.Stat(tmpl); err != nil || o.PkgDir == "" || len(o.Values) == 0 {
+		return "", false
+	}
+	rf := &replayFile{Property: prop, Obligation: o.Name, Label: o.Label, Clause: o.Src, Function: o.Fn, PkgDir: o.PkgDir,
+		Template: tmpl, Values: o.Values, Solver: o.Solver}
+	path := filepath.Join(dir, fileSafe(o.Name)+".replay.json")
+	reproduced, out := runReplay(rf, path)
+	rf.Reproduced = reproduced
+	rf.Output = out
+	b, _ := json.MarshalIndent(rf, "", " ")
+	os.WriteFile(path, append(b, '\n'), 0o644)
+	if !reproduced {
+		return path, false
+	}
+	return path, true
+}
+
+// runReplay injects the template as an in-package test and runs it against the real code.
+// The template's TestVerifReplay fails with a line containing VERIF-REPRODUCED when the
+// violation manifests.
+func runReplay(rf *replayFile, modelPath string) (bool, string) {
+	pkgDir := filepath.Join(repoDir(), rf.PkgDir)
+	mb, _ := json.Marshal(rf)
+	mfile := modelPath + ".model"
+	os.WriteFile(mfile, mb, 0o644)
+	ov := map[string]map[string]string{"Replace": {filepath.Join(pkgDir, "zz_verif_replay_test.go"): rf.Template}}
+	ob, _ := json.Marshal(ov)
+	ovFile := modelPath + ".overlay.json"
+	os.WriteFile(ovFile, ob, 0o644)
+	ctx, cancel := context.WithTimeout(context.Background(), 240*time.Second)
+	defer cancel()
+	cmd := exec.CommandContext(ctx, "go", "test", "-overlay", ovFile, "-vet=off", "-count=1", "-timeout", "60s", "-run", "^TestVerifReplay$", ".")
+	cmd.Dir = pkgDir
+	cmd.Env = append(os.Environ(), "GOFLAGS=-mod=mod", "GOPROXY=off", "GOSUMDB=off", "GOTOOLCHAIN=local", "VERIF_MODEL="+mfile)
+	var out bytes.Buffer
+	cmd.Stdout = &out
+	cmd.Stderr = &out
+	err := cmd.Run()
+	text := out.String()
+	if len(text) > 20000 {
+		text = text[:20000]
+	}
+	return err != nil && strings.Contains(text, "VERIF-REPRODUCED"), text
+}
+
+func cmdReplay(args []string) int {
+	if len(args) < 1 {
+		fmt.Fprintln(os.Stderr, "usage: gowp replay <file>")
+		return 2
+	}
+	b, err := os.ReadFile(args[0])
+	if err != nil {
+		fmt.Fprintln(os.Stderr, err)
+		return 2
+	}
+	if !strings.HasSuffix(args[0], ".json") {
+		// a text replay: no concretiser exists; show it
+		os.Stdout.Write(b)
+		fmt.Println("\nno-failing-input-found: this obligation has no concretiser; re-run the property check to re-decide it")
+		return 1
+	}
+	var rf replayFile
+	if err := json.Unmarshal(b, &rf); err != nil {
+		fmt.Fprintln(os.Stderr, err)
+		return 2
+	}
+	ok, out := runReplay(&rf, args[0]+".rerun")
+	fmt.Println(out)
+	if ok {
+		fmt.Printf("VIOLATION property=%s replay=%s\n", rf.Property, args[0])
+		return 1
+	}
+	fmt.Println("not reproduced on the current tree")
+	return 0
 }
